@@ -316,6 +316,19 @@ func (w *W) c16Judge(k int, g string, doc []byte, nd bool) {
 			w.Violation(fmt.Sprintf("C16/clone-after-own-edits/src-copy=%v/dst-reused=%v", variant == 1, dst != nil), fmt.Sprintf("after edits %v the clone does not expose its own edited document: %s %s; doc=%s", trace, cv.err, cmpRoots(cm, cv.roots, nil, false), q(doc)), cs)
 			return
 		}
+		// the clone used as the reuse argument of a later Parse must not touch the original
+		if variant == 0 || r.Bool() {
+			ob := observe(src, true)
+			cl2 := src.Clone(nil)
+			other := gen.Doc(r.Split(), gen.DocCfg{Size: 50 + r.Intn(12000), MaxDepth: 4, MaxFan: 6, Esc: 20})
+			if _, err := simdjson.Parse(other, cl2); err == nil {
+				w.Eval(1)
+				if d := sameView(ob, observe(src, true)); d != "" {
+					w.Violation(fmt.Sprintf("C16/original-changed-by-parse-into-clone/src-copy=%v", variant == 1), fmt.Sprintf("Parse(other, clone) changed the original the clone was made from: %s; doc=%s", d, q(doc)), cs)
+					return
+				}
+			}
+		}
 		// a clone survives the loss of the input even when its source referenced it
 		overwrite(r, srcBuf, (k+variant)%len(overwriteNames))
 		cv2 := observe(cl, true)
